@@ -36,6 +36,9 @@ class GProv(Prov):
             return {("closure", r["closure_key"], ups)}
         if r["k"] == "agg" and r.get("ak") == "array":
             return {("array", tuple(frozenset(self.of_operand(o, depth + 1)) for o in r["ops"]))}
+        if r["k"] == "discr":
+            short = (r.get("of_ty") or "").split("<")[0].split("::")[-1]
+            return {("discr", frozenset(self.of_place(r["place"], depth)), short)}
         return Prov.of_rvalue(self, r, depth, line)
 
 
@@ -61,10 +64,11 @@ def _join(rs, F):
 class Fmt:
     """Formatter of provenance roots that expands closures to decision tables."""
 
-    def __init__(self, facts, env=None, depth=0):
+    def __init__(self, facts, env=None, depth=0, params=None):
         self.facts = facts
         self.env = env or {}       # upvar field name -> formatted parent term
         self.depth = depth
+        self.params = params or {}  # closure parameter index -> formatted actual argument (beta-reduction)
 
     def roots(self, rs):
         return _join(rs, self.root)
@@ -78,6 +82,8 @@ class Fmt:
             if self.depth > 0:
                 if r[1] == 1 and len(r) > 2 and r[2] in self.env:
                     return self.env[r[2]] + "".join("." + x for x in r[3:])
+                if r[1] in self.params:
+                    return self.params[r[1]] + "".join("." + x for x in r[2:])
                 return "%s%d%s" % ("pqrstu"[min(self.depth, 6) - 1], r[1], "".join("." + x for x in r[2:]))
             return "arg%d%s" % (r[1], "".join("." + x for x in r[2:]))
         if k == "field":
@@ -85,6 +91,13 @@ class Fmt:
         if k == "call":
             return "%s(%s)" % (r[1], ", ".join(_join(a, F) for a in r[3]))
         if k == "const":
+            v = str(r[1]).replace("const ", "").strip()
+            m = re.match(r"^(\d+)_(u8|u16|u32|u64|usize|u128)$", v)
+            if v.endswith("::MAX") or (m and int(m.group(1)) == (1 << {"u8": 8, "u16": 16, "u32": 32, "u64": 64, "usize": 64, "u128": 128}[m.group(2)]) - 1):
+                return "const MAX"
+            m = re.match(r"^promoted&\[01([0-9a-f]{2})\]\+0:&std::option::Option<u8>$", v)
+            if m:       # a promoted `Some(b'x')`: same value as the aggregate built at run time
+                return "Some{0: const %d_u8}" % int(m.group(1), 16)
             return "const %s" % r[1]
         if k == "aggf":
             nm = r[1].split("::")
@@ -95,6 +108,10 @@ class Fmt:
         if k == "bin":
             return "%s(%s, %s)" % (r[1], _join(r[2], F), _join(r[3], F))
         if k == "un":
+            if r[1] == "Not" and len(r[2]) == 1:
+                x = next(iter(r[2]))
+                if x[0] == "const" and re.match(r"^(const )?0_(u8|u16|u32|u64|usize|u128)$", str(x[1]).strip()):
+                    return "const MAX"
             return "%s(%s)" % (r[1], _join(r[2], F))
         if k == "local":
             return "?"
@@ -102,6 +119,8 @@ class Fmt:
             return str(r[1])
         if k == "discr":
             return "discr(%s)" % _join(r[1], F)
+        if k == "closure" and False:
+            pass
         if k == "fn":
             return "fn:" + str(r[1]).split("::")[-1]
         if k == "closure":
@@ -137,26 +156,47 @@ def _norm_atom(root, val):
         if root[0] == "bin" and root[1] == "Eq":
             a, b = sorted([root[2], root[3]], key=lambda s: sorted(map(str, s)))
             root = ("bin", "Eq", a, b)
+        if root[0] == "call" and root[1] == "eq" and len(root[3]) == 2:
+            a, b = sorted(root[3], key=lambda s: sorted(map(str, s)))
+            root = ("call", "eq", root[2], (a, b))
         return root, val
 
 
-def decision_table(facts, c, ups=None, depth=0):
-    """Canonical summary of closure body `c`: atoms + outcome per truth assignment (or ordered paths)."""
-    ups = ups or {}
-    fm = Fmt(facts, ups, depth)
+class Fallback(Exception):
+    pass
+
+
+def _single(rs):
+    return next(iter(rs)) if len(rs) == 1 else None
+
+
+def _const_bool(rs):
+    r = _single(rs)
+    if r is not None and r[0] == "const":
+        v = str(r[1]).replace("const ", "").strip()
+        if v in ("true", "false"):
+            return v == "true"
+    return None
+
+
+def is_parser_closure(c):
+    """Closures that receive the parser input are protocol bodies (rule CONTRACT interprets them)."""
+    return any("InputRef<" in (l.get("ty") or "") for l in c["locals"][1:c["arg_count"] + 1])
+
+
+def closure_rows(facts, c):
+    """Per acyclic path of closure `c`: (literals [(root, bool)], outcome roots, effects).  Raises Fallback for
+    loops / multi-way switches."""
     try:
         ps = mirq.paths(c, limit=3000)
     except RuntimeError:
-        ps = None
-    if ps is None or any(step[1] == "loop" for p in ps for step in p):
-        import interp
-        gp = GProv(c, facts)
-        return "flow: %s digest:%s" % (fm.roots(gp.of_local(0)), interp.closure_digest(facts, c["key"]))
-    rows = []          # (conds: {atom: value}, outcome, effects)
-    boolean_only = True
+        raise Fallback()
+    if any(step[1] == "loop" for p in ps for step in p):
+        raise Fallback()
+    rows = []
     for p in ps:
         pp_ = GPathProv(c, facts, p)
-        conds = {}
+        lits = []
         feasible = True
         for bb, idx in p:
             t = c["blocks"][bb]["term"]
@@ -164,45 +204,33 @@ def decision_table(facts, c, ups=None, depth=0):
                 continue
             choice = mirq.switch_choice(c, bb, idx)
             rs = pp_.of_operand(t["op"])
-            if len(rs) == 1:
-                r0 = next(iter(rs))
-                if r0[0] == "const":
-                    cv = r0[1].replace("const ", "").strip()
-                    cv = {"true": 1, "false": 0}.get(cv, cv)
-                    vals = [v for v, _ in t["targets"]]
-                    if choice == "otherwise":
-                        ok = cv not in vals
-                    else:
-                        ok = (cv == choice)
-                    if not ok:
-                        feasible = False
-                        break
-                    continue
-            else:
-                r0 = ("alts", frozenset(rs))
-            is_bool = (c["locals"][mirq.operand_place(t["op"])["l"]]["ty"] == "bool") if mirq.operand_place(t["op"]) else False
-            if is_bool and [v for v, _ in t["targets"]] == [0]:
-                val = (choice == "otherwise")
-                r1, val = _norm_atom(r0, val)
-                a = fm.root(r1) if r1[0] != "alts" else fm.roots(r1[1])
-                if a in conds and conds[a] != val:
+            vals = [v for v, _ in t["targets"]]
+            r0 = _single(rs)
+            if r0 is not None and r0[0] == "const":
+                cv = str(r0[1]).replace("const ", "").strip()
+                cv = {"true": 1, "false": 0}.get(cv, cv)
+                ok = (cv not in vals) if choice == "otherwise" else (cv == choice)
+                if not ok:
                     feasible = False
                     break
-                conds[a] = val
+                continue
+            if r0 is None:
+                raise Fallback()
+            pl = mirq.operand_place(t["op"])
+            is_bool = pl is not None and c["locals"][pl["l"]]["ty"] == "bool"
+            if is_bool and vals == [0]:
+                lits.append((r0, choice == "otherwise"))
+            elif r0[0] == "discr" and len(r0) > 2 and r0[2] in ("Option", "Result") and len(vals) == 1 and _single(r0[1]) is not None:
+                # two-variant enum: the switch is a boolean test `is Some` / `is Ok`
+                positive = 1 if r0[2] == "Option" else 0
+                taken = vals[0] if choice != "otherwise" else 1 - vals[0]
+                lits.append((("call", "is_some" if r0[2] == "Option" else "is_ok", None, (r0[1],)), taken == positive))
             else:
-                boolean_only = False
-                a = (fm.root(r0) if r0[0] != "alts" else fm.roots(r0[1]))
-                v = "%s" % (choice if choice != "otherwise" else "else[%s]" % ",".join(str(v) for v, _ in t["targets"]))
-                key = "%s" % a
-                if key in conds and conds[key] != v:
-                    feasible = False
-                    break
-                conds[key] = v
+                raise Fallback()
         if not feasible:
             continue
-        outcome = fm.roots(pp_.of_local(0))
-        # effects: calls on the path whose value is not part of the outcome / atoms (side effects such as emit)
         eff = []
+        outcome = pp_.of_local(0)
         for bb, _ in p:
             t = c["blocks"][bb]["term"]
             if t["k"] == "call":
@@ -212,30 +240,162 @@ def decision_table(facts, c, ups=None, depth=0):
                     continue
                 if not any(a["ty"].startswith("&mut") for a in t["args"]):
                     continue          # only calls that can mutate their arguments count as effects
-                if not t["dest"]["p"]:
-                    txt = fm.roots(pp_.of_local(t["dest"]["l"]))
-                else:
-                    txt = nm
-                if txt and txt not in outcome and not any(txt in a for a in conds):
-                    eff.append(nm)
-        rows.append((conds, outcome, tuple(sorted(eff))))
-    atoms = sorted({a for conds, _, _ in rows for a in conds})
-    if boolean_only and len(atoms) <= MAX_ATOMS:
-        table = {}
-        for m in range(1 << len(atoms)):
-            asg = {a: bool((m >> i) & 1) for i, a in enumerate(atoms)}
-            outs = {(o, e) for conds, o, e in rows if all(asg[a] == v for a, v in conds.items())}
-            key = " / ".join(sorted("%s%s" % (o, (" effects[%s]" % ",".join(e)) if e else "") for o, e in outs)) or "<diverges>"
-            table.setdefault(key, []).append("".join("1" if asg[a] else "0" for a in atoms))
-        if not atoms:
-            return next(iter(table)) if table else "<diverges>"
-        # drop atoms that do not influence the outcome (e.g. drop-flag style tests)
-        parts = ["%s iff %s" % (k, ",".join(sorted(v))) for k, v in sorted(table.items())]
-        return "atoms[%s] %s" % ("; ".join(atoms), "; ".join(parts))
+                if nm in ("call", "call_mut", "call_once"):
+                    continue
+                # a value-returning call is part of the terms that use its value; a unit-returning one is a pure effect
+                if not t["dest"]["p"] and c["locals"][t["dest"]["l"]]["ty"] != "()":
+                    continue
+                eff.append(nm)
+        rows.append((lits, outcome, tuple(sorted(eff))))
+    return rows
+
+
+def _merge(a, b):
+    out = dict(a)
+    for k, v in b.items():
+        if k in out and out[k] != v:
+            return None
+        out[k] = v
+    return out
+
+
+def _product(xs, ys):
     out = []
-    for conds, o, e in rows:
-        out.append("when{%s} -> %s%s" % (", ".join("%s=%s" % kv for kv in sorted(conds.items())), o, (" effects[%s]" % ",".join(e)) if e else ""))
-    return "paths: " + " ;; ".join(sorted(set(out)))
+    for a in xs:
+        for b in ys:
+            m = _merge(a, b)
+            if m is not None:
+                out.append(m)
+    return out
+
+
+class Expander:
+    """Turns literals over provenance roots into DNF over canonical atom strings, expanding the std combinators that
+    merely wrap a predicate (map_or / is_some_and / is_none_or / unwrap_or(map(..)) / calls of local closures)."""
+
+    def __init__(self, facts, fm, depth):
+        self.facts, self.fm, self.depth = facts, fm, depth
+
+    def closure_of(self, rs):
+        r = _single(rs)
+        return r if (r is not None and r[0] == "closure") else None
+
+    def apply_pred(self, clo, params, want):
+        """DNF (list of cond dicts) under which closure value `clo` applied to `params` (formatted strings) returns `want`."""
+        cb = self.facts.by_key.get(clo[1])
+        if cb is None or self.depth > 5 or is_parser_closure(cb):
+            raise Fallback()
+        ups = {}
+        for i, (n, v) in enumerate(clo[2]):
+            ups[str(i)] = self.fm.roots(v)
+            ups[n] = ups[str(i)]
+        fm2 = Fmt(self.facts, ups, self.fm.depth + 1, params={i + 2: p_ for i, p_ in enumerate(params)})
+        ex2 = Expander(self.facts, fm2, self.depth + 1)
+        out = []
+        for lits, outcome, eff in closure_rows(self.facts, cb):
+            if eff:
+                raise Fallback()
+            base = ex2.dnf(lits)
+            cb_ = _const_bool(outcome)
+            if cb_ is not None:
+                if cb_ == want:
+                    out.extend(base)
+                continue
+            r = _single(outcome)
+            if r is None:
+                raise Fallback()
+            out.extend(_product(base, ex2.lit(r, want)))
+        return out
+
+    def lit(self, root, val):
+        root, val = _norm_atom(root, val)
+        if root[0] == "call":
+            nm, args = root[1], root[3]
+            opt = None
+            # (opt, default, pred)
+            if nm == "map_or" and len(args) == 3 and _const_bool(args[1]) is not None and self.closure_of(args[2]):
+                opt, d, pred = args[0], _const_bool(args[1]), self.closure_of(args[2])
+            elif nm in ("is_some_and", "is_none_or") and len(args) == 2 and self.closure_of(args[1]):
+                opt, d, pred = args[0], nm == "is_none_or", self.closure_of(args[1])
+            elif nm == "unwrap_or" and len(args) == 2 and _const_bool(args[1]) is not None:
+                m = _single(args[0])
+                if m is not None and m[0] == "call" and m[1] == "map" and len(m[3]) == 2 and self.closure_of(m[3][1]):
+                    opt, d, pred = m[3][0], _const_bool(args[1]), self.closure_of(m[3][1])
+            if opt is not None:
+                some = "is_some(%s)" % self.fm.roots(opt)
+                payload = "%s.0" % self.fm.roots(opt)
+                out = [dict(c, **{some: True}) for c in self.apply_pred(pred, [payload], val) if c.get(some, True)]
+                if d == val:
+                    out.append({some: False})
+                return out
+            if nm in ("call", "call_mut", "call_once") and len(args) == 2 and self.closure_of(args[0]):
+                tup = _single(args[1])
+                if tup is not None and tup[0] == "aggf" and tup[1] == "tuple":
+                    return self.apply_pred(self.closure_of(args[0]), [self.fm.roots(v) for _, v in tup[2]], val)
+        return [{self.fm.root(root): val}]
+
+    def dnf(self, lits):
+        out = [{}]
+        for root, val in lits:
+            out = _product(out, self.lit(root, val))
+        return out
+
+
+def decision_table(facts, c, ups=None, depth=0):
+    """Canonical summary of closure body `c`: atoms + outcome per truth assignment; fallbacks: flow-insensitive return
+    term + callee digest (loops, multi-way matches); parser closures are protocol bodies (see CONTRACT)."""
+    ups = ups or {}
+    fm = Fmt(facts, ups, depth)
+    if is_parser_closure(c):
+        return "parser-closure (protocol body: decided by CONTRACT)"
+    try:
+        rows = closure_rows(facts, c)
+        ex = Expander(facts, fm, 0)
+        flat = []
+        for lits, outcome, eff in rows:
+            o = fm.roots(outcome)
+            for conds in ex.dnf(lits):
+                flat.append((conds, o, eff))
+        atoms = sorted({a for conds, _, _ in flat for a in conds})
+        if len(atoms) > MAX_ATOMS:
+            raise Fallback()
+    except Fallback:
+        import interp
+        gp = GProv(c, facts)
+        return "flow: %s digest:%s" % (fm.roots(gp.of_local(0)), interp.closure_digest(facts, c["key"]))
+    table = {}
+    for m in range(1 << len(atoms)):
+        asg = {a: bool((m >> i) & 1) for i, a in enumerate(atoms)}
+        outs = {(o, e) for conds, o, e in flat if all(asg[a] == v for a, v in conds.items())}
+        key = " / ".join(sorted("%s%s" % (o, (" effects[%s]" % ",".join(e)) if e else "") for o, e in outs)) or "<diverges>"
+        table.setdefault(key, []).append("".join("1" if asg[a] else "0" for a in atoms))
+    if not atoms:
+        return next(iter(table)) if table else "<diverges>"
+    # atoms that never influence the outcome are dropped (tests whose branches rejoin)
+    keep = []
+    for i, a in enumerate(atoms):
+        infl = False
+        for k, rows_ in table.items():
+            rs_ = set(rows_)
+            for bits in rows_:
+                flipped = bits[:i] + ("0" if bits[i] == "1" else "1") + bits[i + 1:]
+                if flipped not in rs_:
+                    infl = True
+                    break
+            if infl:
+                break
+        if infl:
+            keep.append(i)
+    if len(keep) < len(atoms):
+        atoms2 = [atoms[i] for i in keep]
+        t2 = {}
+        for k, rows_ in table.items():
+            t2[k] = sorted({"".join(bits[i] for i in keep) for bits in rows_})
+        atoms, table = atoms2, t2
+        if not atoms:
+            return next(iter(table))
+    parts = ["%s iff %s" % (k, ",".join(sorted(v))) for k, v in sorted(table.items())]
+    return "atoms[%s] %s" % ("; ".join(atoms), "; ".join(parts))
 
 
 def grammar_term(facts, b):
